@@ -314,12 +314,15 @@ def violations (g : Graph) (r : Req) (rt : Route) (cached : Bool := false)
           let needGo := requiredFeeGo p inb hIn.amt
           -- the graph cache keeps the inbound fee of a policy that was re-announced without
           -- an inbound-fee record: the route pays what the OLD inbound fee demands
+          -- (a fee failure after a re-announcement without inbound-fee record is a plain `fee`
+          -- violation: the graph cache must not keep the dropped inbound fee; the detail says
+          -- whether the route pays what the OLD inbound fee demands)
           let staleHit := cached && dropped.any fun d =>
             d.1 == hIn.chan && d.2.1 == cur &&
               decide (hIn.amt + requiredFee p (d.2.2.1, d.2.2.2) hIn.amt ≤ aIn)
-          let tag := if needGo != need && hIn.amt + needGo ≤ aIn then "fee+overflow"
-            else if staleHit then "fee+stale-cached-inbound" else "fee"
-          out := out ++ [(tag, s!"hop={i} node={cur} in={aIn} fwd={hIn.amt} need={need} need_wrapped={needGo} base={p.base} rate={p.rate} inbound={inb.1},{inb.2}")]
+          let tag := if needGo != need && hIn.amt + needGo ≤ aIn then "fee+overflow" else "fee"
+          let det0 := if staleHit then " pays_fee_of_dropped_inbound_record=1" else ""
+          out := out ++ [(tag, s!"hop={i} node={cur} in={aIn} fwd={hIn.amt} need={need} need_wrapped={needGo} base={p.base} rate={p.rate} inbound={inb.1},{inb.2}{det0}")]
         if hIn.tl + p.delta > tIn then
           out := out ++ [("timelock", s!"hop={i} node={cur} in={tIn} out={hIn.tl} delta={p.delta}")]
       | none => pure ()
@@ -341,25 +344,11 @@ def violations (g : Graph) (r : Req) (rt : Route) (cached : Bool := false)
 def showHops (hs : List Hop) : String :=
   " ".intercalate (hs.map fun h => s!"[{h.chan}>{h.to} {h.amt}@{h.tl}]")
 
-/-- What the graph cache holds after policy re-announcements without an inbound-fee record
-    (`GraphCache.UpdatePolicy` overwrites the cached inbound fee only when the new policy
-    carries one): the old inbound fee stays. Used for the CORRESPONDENCE part of graph-cache
-    cases only; the monitor always uses the current policies. -/
-def applyStaleInbound (g : Graph) (dropped : List (Nat × Nat × Int × Int)) : Graph :=
-  dropped.foldl (fun g d =>
-    g.map fun c =>
-      if c.id != d.1 then c else
-      let fix (p : Option Policy) : Option Policy :=
-        p.map fun q => { q with inBase := d.2.2.1, inRate := d.2.2.2 }
-      if c.n1 == d.2.1 then { c with p1 := fix c.p1 }
-      else if c.n2 == d.2.1 then { c with p2 := fix c.p2 } else c) g
-
 def endCase (s : St) : IO St := do
   let mut s := s
   let r := s.req
   let gTrue := s.graph
-  -- model of what the implementation searches on (graph cache with stale inbound fees)
-  let g := if s.kind == "dbc" then applyStaleInbound gTrue s.dropped else gTrue
+  let g := gTrue
   if s.badParse then
     s ← mismatch s "unparsed case"
     return s
@@ -507,7 +496,6 @@ def endCase (s : St) : IO St := do
     let vs := if vs.isEmpty then [("unknown", "")] else vs
     for (cl, det) in vs do
       if cl == "fee+overflow" then s := { s with wrapSkipped := s.wrapSkipped + 1 }
-      if cl == "fee+stale-cached-inbound" then s := { s with staleCached := s.staleCached + 1 }
       s ← monitor s cl s!"{det} route total={rt.totalAmt}@{rt.totalTL} {showHops rt.hops}"
   -- (S) finality: the entries the search used when it relaxed the edges of the returned
   -- chain are the ones recomputed along the chain
@@ -676,7 +664,6 @@ def main : IO Unit := do
   IO.println s!"STAT routes_monitored={s.monitored}"
   IO.println s!"STAT fee_overflow_violations={s.wrapSkipped}"
   IO.println s!"STAT cases_after_inbound_fee_record_dropped={s.reannounced}"
-  IO.println s!"STAT stale_cached_inbound_fee_violations={s.staleCached}"
   IO.println s!"STAT nopath={s.nopath}"
   IO.println s!"STAT insufficient_balance={s.insufficient}"
   IO.println s!"STAT other_errors={s.otherErr}"
